@@ -26,6 +26,16 @@ func (ex *Exec) step(fr *Frame, in ssa.Instruction, st *State, cur *smt.Term) *s
 		}
 		ref := ex.allocRef(st)
 		v := Val{T: x.Type(), Tm: ref}
+		for _, pd := range ex.ghostsOf(el) {
+			// ghost fields of a new object start at the zero value of their type
+			env := ex.envFor(fr, st, st, nil)
+			if tp := ex.Prog.TypesPkg(pd.PkgPath); tp != nil {
+				env.pkg = tp
+			}
+			rt := env.specType(pd.ResType)
+			k := ex.ghostKey(pd.Name, rt)
+			st.heap[k.Name] = c.Store(ex.heapGet(st, k), ref, ex.W.Zero(rt))
+		}
 		a := ex.toAddr(v)
 		if a.Kind == aStruct {
 			ex.store(st, a, ex.W.Zero(el))
@@ -361,6 +371,10 @@ func (ex *Exec) binop(fr *Frame, x *ssa.BinOp, st *State, cur *smt.Term) *smt.Te
 	switch x.Op {
 	case token.EQL, token.NEQ:
 		eq := ex.equal(a, b, st)
+		if bw, ok := ex.W.BridgeWidth(ot); ok && a.Tm != nil && b.Tm != nil && a.Tm.Sort == smt.Int {
+			// values of a `bvtype` type are compared as the bit-vectors they are (both are below 2^width)
+			eq = c.Eq(ex.bvOf(a.Tm, bw), ex.bvOf(b.Tm, bw))
+		}
 		if x.Op == token.NEQ {
 			eq = c.Not(eq)
 		}
